@@ -3,7 +3,7 @@ from pyvc.spec import contract, specfn
 
 CM = 'fast_ticc.cluster_maintenance.'
 
-contract(CM + 'update_cluster_member_data_statistics', props=['C12', 'C13', 'C19'],
+contract(CM + 'update_cluster_member_data_statistics', props=['C12', 'C13'],
          params=dict(cluster='obj:ClusterParameters', training_data='arr2[real]', use_biased_covariance='bool'),
          returns='obj:ClusterParameters',
          requires=["not isnone(cluster._member_points)", "len(cluster._member_points) > 0",
@@ -37,7 +37,7 @@ def _each(lo, hi, new, old):
     return ["forall(%s, %s, lambda k: %s)" % (lo, hi, p.format(new=new, old=old)) for p in _STATS_PARTS]
 
 
-contract(CM + 'update_all_cluster_statistics', props=['C12', 'C13', 'C09', 'C19'],
+contract(CM + 'update_all_cluster_statistics', props=['C12', 'C13', 'C09'],
          params=dict(model='obj:ModelState', training_data='arr2[real]'), returns='obj:ModelState',
          requires=["wf(model)", "len(model._point_labels) == training_data.shape[0]",
                    ("typestate:fresh-labelling-or-repopulated", "model._phase == 0 or model._phase == 1 or model._phase == 4"),
@@ -89,7 +89,7 @@ contract(CM + '_find_point_donor', props=['C08', 'C20'],
                              "fresh(remaining_donors)"],
                         decreases="len(remaining_donors)", modifies=['remaining_donors'])})
 
-contract(CM + '_move_random_points', props=['C08', 'C19'],
+contract(CM + '_move_random_points', props=['C08'],
          params=dict(model='obj:ModelState', donor_cluster_id='int', recipient_cluster_id='int'), returns='list[int]',
          requires=["wf(model)", "0 <= donor_cluster_id and donor_cluster_id < len(model.clusters)",
                    "0 <= recipient_cluster_id and recipient_cluster_id < len(model.clusters)",
@@ -139,7 +139,7 @@ _MOVED = ("forall(0, len({ol}), lambda p: {nl}[p] == {ol}[p] or (csize(model, {o
 _MODEL_UNCHANGED = ("unchanged(model, model.clusters, model._point_labels) and "
                     "forall(0, len(model.clusters), lambda k: unchanged(model.clusters[k], model.clusters[k]._member_points))")
 
-contract(CM + 'repopulate_empty_clusters', props=['C08', 'C13', 'C09', 'C19', 'C20'],
+contract(CM + 'repopulate_empty_clusters', props=['C08', 'C13', 'C09', 'C20'],
          params=dict(model='obj:ModelState'), returns='obj:ModelState',
          requires=["wf(model)", _M + " >= 1", ("typestate:relabelled", "model._phase == 4"),
                    "forall(0, len(model.clusters), lambda k: not isnone(model.clusters[k].computed_covariance))"],
